@@ -137,3 +137,10 @@ def rules(t):
     out.append(r)
     out.append(W3.budget_fail_stays(t, "C14.d", ('unreliable', 'reliable')))
     return out
+
+_rules_c14_w5 = rules
+def rules(t):
+    import rules.wave5 as W5
+    out = _rules_c14_w5(t)
+    out.append(W5.full_visit(t, "C14.e", "every channel is visited in every get_packets_to_send (a visit is what makes an unreliable channel drain and drop what does not fit): the loop over channel_send_order is left only when exhausted", "RenetClient::get_packets_to_send", "channel_send_order"))
+    return out
